@@ -442,6 +442,13 @@ pub fn run(ctx: &Ctx) -> Report {
         }
         jobs.push((vec![Dev::DropDynamic], Subject::Verify));
         jobs.push((vec![Dev::CompositionPrehashed], Subject::Verify));
+        // two appended page headers whose sizes only overflow TOGETHER (machine words / the field)
+        for (s1, s2) in [("0x80000000000000000000000000000000", "0x80000000000000000000000000000000"), ("0x8000000000000000", "0x8000000000000000"),
+            ("0xffffffffffffffff", "0x1"), ("0xffffffff", "0x1"), ("0x400000000000008800000000000000000000000000000000000000000000000", "0x400000000000008800000000000000000000000000000000000000000000001")] {
+            for sub in [Subject::Verify, Subject::ValidatePublicInput, Subject::VerifyPublicInput] {
+                jobs.push((vec![Dev::AddPageHeader(s1.into(), "0x5".into()), Dev::AddPageHeader(s2.into(), "0x7".into())], sub));
+            }
+        }
         for (size, prod) in [("0x0", "0x0"), ("0x1", "0x0"), ("0x1", "0x1"), ("0x0", "0x1"), ("0x10000000000000000", "0x5"),
             ("0x800000000000011000000000000000000000000000000000000000000000000", "0x5"), ("0x3", "0x800000000000011000000000000000000000000000000000000000000000000")] {
             for sub in [Subject::Verify, Subject::ValidatePublicInput, Subject::VerifyPublicInput] {
